@@ -9,7 +9,7 @@ import (
 
 func (fc *FnCtx) mapKeys(mt *types.Map) (dom, val, card string) {
 	ks, vs := fc.so.Sort(mt.Key()), fc.so.Sort(mt.Elem())
-	return "Md:" + ks, "Mv:" + ks + ":" + vs, "Mc"
+	return mapDomKey(ks, vs), mapValKey(ks, vs), mapCardKey(ks, vs)
 }
 
 func (fc *FnCtx) mapDom(st *State, mt *types.Map, m *Term) *Term {
@@ -24,8 +24,9 @@ func (fc *FnCtx) mapVals(st *State, mt *types.Map, m *Term) *Term {
 	return fc.tb.Select(fc.heapGet(st, vk, ArraySort("Ref", ArraySort(ks, vs))), m)
 }
 
-func (fc *FnCtx) mapCard(st *State, m *Term) *Term {
-	c := fc.tb.Select(fc.heapGet(st, "Mc", ArraySort("Ref", "Int")), m)
+func (fc *FnCtx) mapCard(st *State, mt *types.Map, m *Term) *Term {
+	_, _, ck := fc.mapKeys(mt)
+	c := fc.tb.Select(fc.heapGet(st, ck, ArraySort("Ref", "Int")), m)
 	return c
 }
 
@@ -58,28 +59,28 @@ func (fc *FnCtx) lookup(in *ssa.Lookup, st *State) Val {
 
 func (fc *FnCtx) mapStore(st *State, mt *types.Map, m, k, v *Term) {
 	tb := fc.tb
-	dk, vk, _ := fc.mapKeys(mt)
+	dk, vk, ck := fc.mapKeys(mt)
 	ks, vs := fc.so.Sort(mt.Key()), fc.so.Sort(mt.Elem())
 	dm := fc.heapGet(st, dk, ArraySort("Ref", ArraySort(ks, "Bool")))
 	vm := fc.heapGet(st, vk, ArraySort("Ref", ArraySort(ks, vs)))
-	cm := fc.heapGet(st, "Mc", ArraySort("Ref", "Int"))
+	cm := fc.heapGet(st, ck, ArraySort("Ref", "Int"))
 	was := tb.Select(tb.Select(dm, m), k)
 	fc.heapSet(st, dk, tb.Store(dm, m, tb.Store(tb.Select(dm, m), k, tb.True())))
 	fc.heapSet(st, vk, tb.Store(vm, m, tb.Store(tb.Select(vm, m), k, v)))
-	fc.heapSet(st, "Mc", tb.Store(cm, m, tb.Add(tb.Select(cm, m), tb.Ite(was, tb.Int(0), tb.Int(1)))))
+	fc.heapSet(st, ck, tb.Store(cm, m, tb.Add(tb.Select(cm, m), tb.Ite(was, tb.Int(0), tb.Int(1)))))
 }
 
 func (fc *FnCtx) mapDelete(st *State, mt *types.Map, m, k *Term) {
 	tb := fc.tb
-	dk, _, _ := fc.mapKeys(mt)
+	dk, _, ck := fc.mapKeys(mt)
 	ks := fc.so.Sort(mt.Key())
 	dm := fc.heapGet(st, dk, ArraySort("Ref", ArraySort(ks, "Bool")))
-	cm := fc.heapGet(st, "Mc", ArraySort("Ref", "Int"))
+	cm := fc.heapGet(st, ck, ArraySort("Ref", "Int"))
 	isNil := tb.Eq(m, tb.Const("null", "Ref"))
 	was := tb.And(tb.Not(isNil), tb.Select(tb.Select(dm, m), k))
 	nd := tb.Store(dm, m, tb.Store(tb.Select(dm, m), k, tb.False()))
 	fc.heapSet(st, dk, tb.Ite(isNil, dm, nd))
-	fc.heapSet(st, "Mc", tb.Ite(was, tb.Store(cm, m, tb.Sub(tb.Select(cm, m), tb.Int(1))), cm))
+	fc.heapSet(st, ck, tb.Ite(was, tb.Store(cm, m, tb.Sub(tb.Select(cm, m), tb.Int(1))), cm))
 }
 
 func (fc *FnCtx) mapUpdate(in *ssa.MapUpdate, st *State) {
